@@ -13,8 +13,11 @@
               (v*A)(x)=v*A(x), (A*v)(x)=A(v*x), (A+v)(x)=A(x)+v, A**n iterated, (A/a)(x)=A(x/a)
      sdom/sran/slin   domain, range, linearity implied by the expression
      leaf_ok  what is assumed of a leaf: maps F^n into its declared range; a Functional has
-              the field as range; a leaf FLAGGED linear is homogeneous (the premise that the
-              A*a -> a*A rewrite needs; nothing is assumed of nonlinear leaves)            *)
+              the field as range; a leaf FLAGGED linear is linear (homogeneity is the premise
+              that the A*a -> a*A rewrite needs; nothing is assumed of nonlinear leaves)
+     variant  switches for the two recorded findings that touch the model (variant_current =
+              what /repo does now, measured by the harness on every run; variant_repaired =
+              after the proposed fixes).  Value/type theorems hold for EVERY variant.       *)
 From Coq Require Import ZArith QArith Reals List Bool Ring.
 From Verif Require Import Base.Num Base.Vec C04.Model C04.Cplx C04.Proofs C04.Instances C04.Refuted.
 Import ListNotations.
@@ -27,20 +30,20 @@ Theorem build_sound : forall (T : Type) (N : Num T),
   ring_theory nzero none_ nadd nmul nsub nopp (@eq T) ->
   (forall u c : T, ndiv u c = nmul (ndiv none_ c) u) ->
   (forall a b : T, neqb a b = true -> a = b) ->
-  forall (s : sexpr T) (o : oexpr T), sleaves_ok s -> build s = Ok o ->
+  forall (vt : variant) (s : sexpr T) (o : oexpr T), sleaves_ok s -> build vt s = Ok o ->
   forall x : list T, length x = dim (sdom s) ->
     eval o x = denote s x /\ eval_ip o x = denote s x.
 Proof. exact @build_sound. Qed.
 Print Assumptions build_sound.
 
 (* the same, closed, at the two fields ODL has *)
-Theorem build_sound_real : forall (s : sexpr R) (o : oexpr R), sleaves_ok s -> build s = Ok o ->
+Theorem build_sound_real : forall (vt : variant) (s : sexpr R) (o : oexpr R), sleaves_ok s -> build vt s = Ok o ->
   forall x : list R, length x = dim (sdom s) ->
     eval o x = denote s x /\ eval_ip o x = denote s x.
 Proof. exact (@Proofs.build_sound R _ R_ring R_div R_eqb). Qed.
 Print Assumptions build_sound_real.
 
-Theorem build_sound_complex : forall (s : sexpr RC) (o : oexpr RC), sleaves_ok s -> build s = Ok o ->
+Theorem build_sound_complex : forall (vt : variant) (s : sexpr RC) (o : oexpr RC), sleaves_ok s -> build vt s = Ok o ->
   forall x : list RC, length x = dim (sdom s) ->
     eval o x = denote s x /\ eval_ip o x = denote s x.
 Proof. exact (@Proofs.build_sound RC _ RC_ring RC_div RC_eqb). Qed.
@@ -52,7 +55,7 @@ Theorem build_types : forall (T : Type) (N : Num T),
   ring_theory nzero none_ nadd nmul nsub nopp (@eq T) ->
   (forall u c : T, ndiv u c = nmul (ndiv none_ c) u) ->
   (forall a b : T, neqb a b = true -> a = b) ->
-  forall (s : sexpr T) (o : oexpr T), sleaves_ok s -> build s = Ok o ->
+  forall (vt : variant) (s : sexpr T) (o : oexpr T), sleaves_ok s -> build vt s = Ok o ->
   odom o = sdom s /\ oran o = sran s /\
   (forall x : list T, length x = dim (sdom s) -> length (eval o x) = dim (sran s)).
 Proof. exact @Proofs.build_types. Qed.
@@ -62,11 +65,11 @@ Print Assumptions build_types.
    correspondence (matrix/affine/square/cube/abs operators, inner-product operator, linear,
    quadratic and L1 functionals, field-valued nonlinear operator) meets it, so for expressions
    over the pool the theorem needs no premise about leaves at all. *)
-Theorem build_sound_pool_real : forall (s : sexpr R) (o : oexpr R), sleaves_pool s -> build s = Ok o ->
+Theorem build_sound_pool_real : forall (vt : variant) (s : sexpr R) (o : oexpr R), sleaves_pool s -> build vt s = Ok o ->
   forall x : list R, length x = dim (sdom s) ->
     eval o x = denote s x /\ eval_ip o x = denote s x.
 Proof.
-  exact (fun s o P => @Proofs.build_sound R _ R_ring R_div R_eqb s o (sleaves_pool_ok R_ring s P)).
+  exact (fun vt s o P => @Proofs.build_sound R _ R_ring R_div R_eqb vt s o (sleaves_pool_ok R_ring s P)).
 Qed.
 Print Assumptions build_sound_pool_real.
 
@@ -77,7 +80,7 @@ Theorem flag_sound : forall (T : Type) (N : Num T),
   ring_theory nzero none_ nadd nmul nsub nopp (@eq T) ->
   (forall u c : T, ndiv u c = nmul (ndiv none_ c) u) ->
   (forall a b : T, neqb a b = true -> a = b) ->
-  forall (s : sexpr T) (o : oexpr T), sleaves_ok s -> build s = Ok o -> olin o = true ->
+  forall (vt : variant) (s : sexpr T) (o : oexpr T), sleaves_ok s -> build vt s = Ok o -> olin vt o = true ->
     (forall (c : T) (x : list T), length x = dim (sdom s) ->
         denote s (vscal c x) = vscal c (denote s x))
     /\ (forall x y : list T, length x = dim (sdom s) -> length y = dim (sdom s) ->
@@ -88,28 +91,48 @@ Print Assumptions flag_sound.
 (* Flags, completeness: "the linearity flag of the result is the one implied by the expression"
    ([slin]: sums/compositions of linear operands, scalar and vector multiples of a linear
    operand are linear).  FULL STATEMENT (false, see flag_complete_refuted):
-       forall s o, sleaves_ok s -> build s = Ok o -> slin s = true -> olin o = true.
-   It holds for every expression that contains no `A * v` with a scalar-valued A: *)
+       forall s o, sleaves_ok s -> build variant_current s = Ok o -> slin s = true ->
+                   olin variant_current o = true.
+   For the code as it is now it holds for every expression that contains no `A * v` with a
+   scalar-valued A (flag_complete_partial); for the repaired FunctionalRightVectorMult it holds
+   in full (flag_complete_repaired): *)
 Theorem flag_complete_partial : forall (T : Type) (N : Num T),
   ring_theory nzero none_ nadd nmul nsub nopp (@eq T) ->
   (forall u c : T, ndiv u c = nmul (ndiv none_ c) u) ->
   (forall a b : T, neqb a b = true -> a = b) ->
   (forall a : T, neqb a a = true) ->
-  forall (s : sexpr T) (o : oexpr T), sleaves_ok s -> build s = Ok o -> no_sf_rvec s ->
-    slin s = true -> olin o = true.
+  forall (vt : variant) (s : sexpr T) (o : oexpr T), sleaves_ok s -> build vt s = Ok o -> no_sf_rvec s ->
+    slin s = true -> olin vt o = true.
 Proof. exact @Proofs.flag_complete_partial. Qed.
 Print Assumptions flag_complete_partial.
+
+Theorem flag_complete_repaired : forall (T : Type) (N : Num T),
+  ring_theory nzero none_ nadd nmul nsub nopp (@eq T) ->
+  (forall u c : T, ndiv u c = nmul (ndiv none_ c) u) ->
+  (forall a b : T, neqb a b = true -> a = b) ->
+  (forall a : T, neqb a a = true) ->
+  forall (vt : variant), v_frvec_lin vt = true ->
+  forall (s : sexpr T) (o : oexpr T), sleaves_ok s -> build vt s = Ok o ->
+    slin s = true -> olin vt o = true.
+Proof. exact @Proofs.flag_complete_repaired. Qed.
+Print Assumptions flag_complete_repaired.
 
 (* ... and is refuted by  f * v  for a linear Functional f (FunctionalRightVectorMult drops the
    flag; recorded finding, probe key flag-FunctionalRightVectorMult-drops-linear). *)
 Theorem flag_complete_refuted :
   exists (s : sexpr R) (o : oexpr R),
-    sleaves_ok s /\ build s = Ok o /\ slin s = true /\ olin o = false.
+    sleaves_ok s /\ build variant_current s = Ok o /\ slin s = true /\ olin variant_current o = false.
 Proof. exact flag_complete_refuted_R. Qed.
 
 (* `A + a` for a field-valued operator A that is not a Functional is documented by
    Operator.__add__ ("other in self.range") but rejected by OperatorVectorSum.__init__
    (recorded finding, probe key add-scalar-to-field-valued-operator-raises). *)
 Theorem add_scalar_field_range_rejected :
-  build (SAddC (SLeaf (LIP 0 [1%R])) 1%R) = Err TypeErr.
+  build variant_current (SAddC (SLeaf (LIP 0 [1%R])) 1%R) = Err TypeErr.
 Proof. exact add_scalar_field_range_rejected_R. Qed.
+
+(* ... while the repaired OperatorVectorSum accepts it with the table value (instance of
+   build_sound at variant_repaired; shown here so that the accepted form is visible). *)
+Example add_scalar_field_range_repaired :
+  build variant_repaired (SAddC (SLeaf (LIP 0 [1%R])) 1%R) = Ok (OVecSum (OLeaf (LIP 0 [1%R])) [1%R]).
+Proof. reflexivity. Qed.
